@@ -16,7 +16,8 @@ EXPLANATION = (
     "into; (R2) built-in argument contract; (R3) every constructible run-time error has a code; "
     "(R4) every label the generator leaves symbolic is checked and resolved; (R5) no reachable "
     "todo!/unimplemented!; (R6) explicit panic sites reachable from generate_instructions and "
-    "Interpreter::interpret are each audited.")
+    "Interpreter::interpret are each audited; (R7) the error path of the fetch-execute loop unwinds the "
+    "context states a failing statement had opened (shared with C05.R6).")
 NOT_DECIDED = ["panic-freedom in general (implicit arithmetic overflow / bounds panics, stack depth)"]
 
 PCL = labels.PCL
@@ -381,5 +382,6 @@ def run(ctx):
     c05.r1_error_codes(ctx, "C08.R3")
     labels.r_label_tables(ctx, "C08.R4")
     r5_no_todo(ctx)
+    c05.r6_error_unwinding(ctx, "C08.R7")
     from . import panics
     panics.r_audit(ctx, "C08.R6", scope="backend")
